@@ -543,3 +543,37 @@ def r19_empty_vec(text):
 
 
 REWRITES['R19'] = r19_empty_vec
+
+def r20_filter_any(text):
+    """R20:  `X.iter().filter(|P| F).any(|Q| G)`  ->
+         { let mut any_found = false;
+           for Q in any_it: X.iter() { if !any_found { let P = &Q; if F { if G { any_found = true; } } } }
+           any_found }
+    `any` stops at the first element for which G holds; the guard `!any_found` evaluates F and G
+    for exactly the same elements in the same order (advancing a slice iterator has no effect)."""
+    n = 0
+    while True:
+        m = re.search(r'\.\s*iter\(\)\s*\.\s*filter\s*\(', text)
+        if not m:
+            break
+        cl1 = _closure_at(text, m.end() - 1)
+        if not cl1:
+            raise ValueError('R20: filter argument is not a closure')
+        pat1, body1, end1 = cl1
+        m2 = re.match(r'\s*\.\s*any\s*\(', text[end1:])
+        if not m2:
+            raise ValueError('R20: .filter(..) not followed by .any(..)')
+        cl2 = _closure_at(text, end1 + m2.end() - 1)
+        if not cl2:
+            raise ValueError('R20: any argument is not a closure')
+        pat2, body2, end2 = cl2
+        rs = _receiver_start(text, m.start())
+        recv = text[rs:m.start()].strip()
+        new = ('{ let mut any_found = false;\n for %s in any_it: %s.iter() {\n if !any_found { let %s = &%s; if %s { if %s { any_found = true; } } }\n }\n any_found }'
+               % (pat2, recv, pat1, pat2, body1, body2))
+        text = text[:rs] + new + text[end2:]
+        n += 1
+    return text, n
+
+
+REWRITES['R20'] = r20_filter_any
